@@ -67,7 +67,9 @@ static int nent;
 static int final_nl;
 static char fam;		/* P pool size, Z zone-name length, K key length, H high-bit keys */
 static long fam_ord;		/* the ordered coordinate of the family */
-static char srcpath[4300], outpath[4300];
+static char srcpath[4300], srcpath2[4300], outpath[4300];
+static int split_at;		/* > 0: the first SPLIT_AT lines go to one file, the rest to a second FILE argument */
+static int ascending_p;	/* keys strictly ascending byte-wise */
 static int g_verbose;
 static uint8_t *cimg;
 static size_t clen;
@@ -111,6 +113,7 @@ mk_family(char f, long idx)
 	char k[64], z[128];
 
 	src_clear();
+	split_at = 0;
 	fam = f;
 	final_nl = !(idx & 1);
 	idx >>= 1;
@@ -164,6 +167,34 @@ mk_family(char f, long idx)
 		fam_ord = L;
 		return 1;
 	}
+	case 'U': {
+		/* every sequence of 2..3 keys over {A AA B C} (with repetition): most are not strictly ascending */
+		static const char *const uk[4] = {"A", "AA", "B", "C"};
+		static const char *const uz[3] = {"Europe/Berlin", "Asia/Tokyo", "America/New_York"};
+		int n = idx < 16 ? 2 : 3, c = (int)(idx < 16 ? idx : idx - 16);
+		if (idx >= 16 + 64) {
+			return 0;
+		}
+		for (int i = 0; i < n; i++) {
+			int k = (c >> (2 * (n - 1 - i))) & 3;
+			src_add(uk[k], uz[i]);
+		}
+		fam_ord = idx;
+		return 1;
+	}
+	case 'F': {
+		/* a sorted source of 4 lines given as TWO file arguments, split after line 1, 2 or 3 */
+		if (idx >= 3) {
+			return 0;
+		}
+		src_add("A", "Europe/Berlin");
+		src_add("B", "Asia/Tokyo");
+		src_add("C", "America/New_York");
+		src_add("D", "Etc/UTC");
+		split_at = (int)idx + 1;
+		fam_ord = split_at;
+		return 1;
+	}
 	case 'H': {
 		/* every sorted set of <= 4 of the 7 keys with bytes >= 0x80 among them */
 		int cnt = 0;
@@ -193,7 +224,7 @@ static const char *const absent_probe[] = {"", "B", "K99999", "MM", "\xc3", "\xf
 static void
 fam_name(char *buf, size_t bsz)
 {
-	snprintf(buf, bsz, "family=%s final-newline=%s", fam == 'P' ? "pool-size" : fam == 'Z' ? "zone-name-length" : fam == 'K' ? "key-length" : "high-bit-keys",
+	snprintf(buf, bsz, "family=%s final-newline=%s", fam == 'P' ? "pool-size" : fam == 'Z' ? "zone-name-length" : fam == 'K' ? "key-length" : fam == 'U' ? "key-order" : fam == 'F' ? "two-files" : "high-bit-keys",
 		 final_nl ? "yes" : "no");
 }
 
@@ -204,11 +235,11 @@ static long the_idx;
 static void
 compile_case(long i)
 {
-	char *argv[] = {"tzmap", "cc", "-o", outpath, srcpath, NULL};
+	char *argv[] = {"tzmap", "cc", "-o", outpath, srcpath, split_at ? srcpath2 : NULL, NULL};
 	(void)i;
 	c19->phase = PH_COMPILE;
 	optind = 0;
-	if (tzmap_main(5, argv) != 0) {
+	if (tzmap_main(split_at ? 6 : 5, argv) != 0) {
 		/* a clean refusal; whether it is acceptable is the parent's business */
 		C19_CTR(c_ref, "compiler_refusals");
 		C19_INC(c_ref);
@@ -276,6 +307,7 @@ lookup_case(long i)
 	for (int k = 0; k < nent + NABSENT; k++) {
 		const char *q = k < nent ? skey[k] : absent_probe[k - nent];
 		const char *e = NULL;
+		int hit = 0;
 		for (int j = 0; j < nent; j++) {
 			if (!strcmp(skey[j], q)) {
 				e = szone[j];
@@ -299,7 +331,13 @@ lookup_case(long i)
 				snprintf(key, sizeof(key), "mapsrc %s present-key-not-found", fn);
 				text(e, b, sizeof(b));
 				c19_viol(key, (double)fam_ord, cas, "source of %d lines (coordinate %ld): tzm_find('%s') = NULL, the source maps it to '%s'", nent, fam_ord, a, b);
-			} else if (strcmp(res, e)) {
+			} else if (({
+					/* a key listed twice: any of its zones will do */
+					for (int j = 0; j < nent; j++) {
+						hit |= !strcmp(skey[j], q) && !strcmp(szone[j], res);
+					}
+					!hit;
+				})) {
 				char tmp[64];
 				snprintf(tmp, sizeof(tmp), "%.40s", res);
 				text(tmp, c, sizeof(c));
@@ -335,8 +373,19 @@ do_source(void)
 		perror(srcpath);
 		exit(3);
 	}
+	ascending_p = 1;
 	for (int i = 0; i < nent; i++) {
+		if (split_at && i == split_at) {
+			fclose(f);
+			if ((f = fopen(srcpath2, "w")) == NULL) {
+				perror(srcpath2);
+				exit(3);
+			}
+		}
 		fprintf(f, "%s\t%s%s", skey[i], szone[i], i + 1 < nent || final_nl ? "\n" : "");
+		if (i && strcmp(skey[i - 1], skey[i]) >= 0) {
+			ascending_p = 0;
+		}
 	}
 	fclose(f);
 	unlink(outpath);
@@ -346,8 +395,12 @@ do_source(void)
 		c19_batch(1, compile_case, crashed);
 		if (*ex_ctr("compiler_refusals") != r0) {
 			EX_CTR(c_okref, "skipped:source whose zone names exceed the 64 KiB the map format addresses, refused by the compiler with an error");
+			EX_CTR(c_okuns, "skipped:source whose keys are not strictly ascending, refused by the compiler with an error");
 			if (fam == 'P' && fam_ord > 65535) {
 				++*c_okref;
+			} else if (!ascending_p) {
+				/* reading: `tzmap check' calls a non-ascending source an error; a compiler that refuses it fails cleanly */
+				++*c_okuns;
 			} else {
 				char key[200], fn[96], cas[64];
 				fam_name(fn, sizeof(fn));
@@ -373,7 +426,7 @@ main(int argc, char *argv[])
 	EX_CTR(c_traces, "traces");
 	EX_CTR(c_nontriv, "nontrivial");
 	const char *rundir = getenv("VERIF_RUNDIR");
-	static const char fams[] = "HZKP";
+	static const char fams[] = "HUFZKP";
 	uint64_t slice = 0;
 
 	ex_init(argc, argv);
@@ -386,6 +439,7 @@ main(int argc, char *argv[])
 	zc_wd_limit = 2;
 	snprintf(srcpath, sizeof(srcpath), "%s/c19ms.%d.src", rundir ? rundir : "/tmp", (int)getpid());
 	snprintf(outpath, sizeof(outpath), "%s/c19ms.%d.tzm", rundir ? rundir : "/tmp", (int)getpid());
+	snprintf(srcpath2, sizeof(srcpath2), "%s/c19ms.%d.src2", rundir ? rundir : "/tmp", (int)getpid());
 	(void)cimg, (void)clen;
 
 	if (ex.cas) {
@@ -411,10 +465,12 @@ main(int argc, char *argv[])
 	ex_meta("rule", "zone-map SOURCES through the repository's own compiler (lib/tzmap.c cmd_cc via its main(), forked child, ASan): families high-bit-keys (every sorted set of <= 4 of "
 		"7 keys, 4 of them with bytes >= 0x80, byte-wise ascending as `tzmap check' demands), zone-name-length (a zone name of 1..300 bytes as 1st/2nd/3rd of three lines), "
 		"key-length (a key of 1..255 bytes, or two of them, between two short keys; longer keys are dropped by design), pool-size (N distinct zone names of 19 and 31 bytes so that "
-		"the zone-name pool ends 1 entry below, at, 1/2/50 entries above 64 KiB and above 128 KiB); each with and without a final newline. Oracle: the compile ends with "
+		"the zone-name pool ends 1 entry below, at, 1/2/50 entries above 64 KiB and above 128 KiB); key-order (every sequence of 2..3 keys over {A AA B C}, most not ascending; reading: `tzmap check' calls a non-ascending source an error, so the compiler may "
+		"refuse it with an error (counted), but a source it accepts with exit 0 must look up completely; a key listed twice may go to either of its zones), two-files (a sorted "
+		"source given as two FILE arguments, as the usage `tzmap cc [FILE]...' allows); each with and without a final newline. Oracle: the compile ends with "
 		"no AddressSanitizer report and exit 0 (reading: a source whose zone names exceed the 64 KiB the record format can address may instead be refused with an error; counted); in the compiled map EVERY key of the source looks up to exactly its zone string and %d absent probes are absent. non-trivial = all (each source "
 		"is at a seam of a buffer or field width)", NABSENT);
-	ex_meta("bound", "complete (both tiers): 198 + 1800 + 1020 + 24 sources");
+	ex_meta("bound", "complete (both tiers): 198 + 160 + 6 + 1800 + 1020 + 24 sources");
 
 	for (const char *fp = fams; *fp && !ex_expired(); fp++) {
 		for (long idx = 0; !ex_expired(); idx++) {
@@ -437,6 +493,7 @@ main(int argc, char *argv[])
 		}
 	}
 	unlink(srcpath);
+	unlink(srcpath2);
 	unlink(outpath);
 	return ex_finish();
 }
